@@ -30,6 +30,8 @@ import (
 //     the server name; plain UDP goes to loopback listeners.
 // (4) c18boot.go: several upstreams in one process on host names resolved
 //     through Opt.Bootstrap, each must reach its own name's address and port.
+// (5) c18doh.go: https / h3 against real DoH servers on loopback: server name,
+//     request authority and dial target of the endpoint URL.
 
 func init() { props["C18"] = runC18 }
 
@@ -38,6 +40,10 @@ type socks18 struct {
 	mu     sync.Mutex
 	target []string // host|port of each CONNECT
 	sni    []string
+	// forward, when set (before the first connection), makes the observer splice every accepted CONNECT to this
+	// address instead of playing the aborting TLS server itself (c18doh.go: a real DoH server behind the observer)
+	forward string
+	fwd     map[string]string // forward mode: local address of the spliced connection -> host|port of its CONNECT
 }
 
 func newSocks18() *socks18 {
@@ -97,10 +103,29 @@ func (s *socks18) serve(c net.Conn) {
 	if _, err := io.ReadFull(c, p[:]); err != nil {
 		return
 	}
+	tgt := fmt.Sprintf("%s|%d", host, binary.BigEndian.Uint16(p[:]))
 	s.mu.Lock()
-	s.target = append(s.target, fmt.Sprintf("%s|%d", host, binary.BigEndian.Uint16(p[:])))
+	s.target = append(s.target, tgt)
 	s.mu.Unlock()
 	c.Write([]byte{5, 0, 0, 1, 0, 0, 0, 0, 0, 0})
+	if s.forward != "" {
+		b, err := net.DialTimeout("tcp", s.forward, 3*time.Second)
+		if err != nil {
+			return
+		}
+		defer b.Close()
+		s.mu.Lock()
+		if s.fwd == nil {
+			s.fwd = map[string]string{}
+		}
+		s.fwd[b.LocalAddr().String()] = tgt
+		s.mu.Unlock()
+		c.SetDeadline(time.Now().Add(20 * time.Second))
+		b.SetDeadline(time.Now().Add(20 * time.Second))
+		go func() { io.Copy(b, c); b.Close() }()
+		io.Copy(c, b)
+		return
+	}
 	// If a TLS ClientHello follows, record its server name and abort the handshake.
 	ts := tls.Server(c, &tls.Config{GetConfigForClient: func(chi *tls.ClientHelloInfo) (*tls.Config, error) {
 		s.mu.Lock()
@@ -290,6 +315,16 @@ func runC18(r *Run) {
 		}
 		if strings.HasPrefix(s, "[") && strings.HasSuffix(s, "]") && len(s) >= 2 && noBr(s[1:len(s)-1]) && err == nil {
 			r.Fail("contract bracketNoPort: net.SplitHostPort([v]) succeeded", desc)
+		}
+		// V6Contract clauses on the real library: netip.ParseAddr succeeding with an IPv6 address
+		if ad, perr := netip.ParseAddr(s); perr == nil && ad.Is6() {
+			r.Count("fn-input:ipv6-literal")
+			if colonCount(s) < 2 {
+				r.Fail("contract twoColons: netip.ParseAddr took a string with fewer than two colons for IPv6", map[string]any{"input": s})
+			}
+			if strings.HasPrefix(s, "[") {
+				r.Fail("contract startsBracket: netip.ParseAddr took a string that starts with a bracket for IPv6", map[string]any{"input": s})
+			}
 		}
 		// ParseUint
 		if err == nil {
@@ -484,5 +519,7 @@ func runC18(r *Run) {
 	}
 	// ---------- (4) several upstreams in one process whose host name is resolved through a bootstrap server
 	runC18Boot(r)
-	r.Finish("address grammar {scheme} x {IPv4, [IPv6], bare IPv6, hostname} x {no port, 1..65535, >65535} x {no dial_addr, IP, IP:port, [IPv6]:port, bare IPv6} x {path}; helper functions on every component string plus hand-picked malformed strings plus random strings over `[]:.a1%/ `; black box via a SOCKS5 observer (CONNECT target, TLS ClientHello SNI) and loopback UDP; groups of 2..4 upstreams created in one process on host names resolved through Opt.Bootstrap (fake bootstrap server, one loopback address per name, TCP and UDP listeners on a shared set of ports; same name with equal and different ports, tls / tls+pipeline / https / quic / h3, port in the URL or in dial_addr name:port, bootstrap version 0/4/6), each connection attributed by ALPN tag or UDP source port and required to reach its own upstream's name and port; non-trivial = input contains a bracket or colon / every black-box case")
+	// ---------- (5) the DoH path: https / h3 against real DoH servers on loopback
+	runC18Doh(r)
+	r.Finish("address grammar {scheme} x {IPv4, [IPv6], bare IPv6, hostname} x {no port, 1..65535, >65535} x {no dial_addr, IP, IP:port, [IPv6]:port, bare IPv6} x {path}; helper functions on every component string plus hand-picked malformed strings plus random strings over `[]:.a1%/ `; black box via a SOCKS5 observer (CONNECT target, TLS ClientHello SNI) and loopback UDP; groups of 2..4 upstreams created in one process on host names resolved through Opt.Bootstrap (fake bootstrap server, one loopback address per name, TCP and UDP listeners on a shared set of ports; same name with equal and different ports, tls / tls+pipeline / https / quic / h3, port in the URL or in dial_addr name:port, bootstrap version 0/4/6), each connection attributed by ALPN tag or UDP source port and required to reach its own upstream's name and port; the https / h3 matrix {IPv4, [IPv6], bare IPv6, host name} x {port, none} x {dial_addr 127.0.0.1:p / [::1]:p, none = SOCKS5 observer splicing to the server} x {path} against real DoH servers on loopback (HTTP/2 over TLS attributed by ALPN tag, one HTTP/3 server per case), per-case certificate valid for exactly the URL host, verified or unverified: server name (host-name mismatch error, SNI), Host / :authority, CONNECT target / dial_addr listener; non-trivial = input contains a bracket or colon / every black-box case")
 }
